@@ -751,9 +751,12 @@ fn multi_quoted_string<'a>(
 fn end_expr<'a>() -> impl Parser<'a, ParserInput<'a>, (), ParserError<'a>> {
     choice((
         end(),
-        one_of(",)]}\t >").to(()),
-        newline(),
         just("..").to(()),
+        // a literal, a keyword or an operator word ends where a name (or a
+        // path) cannot continue
+        any()
+            .filter(|c: &char| !(c.is_alphanumeric() || *c == '_' || *c == '.'))
+            .to(()),
     ))
     .rewind()
 }
